@@ -32,13 +32,13 @@ type Case struct {
 	Salt    int    `json:"salt"`
 }
 
-var kinds = []string{"prodcons", "mutex-let", "mutex-global", "sync-instance", "defvar-defun", "printing", "exit-lock", "generic", "mutex-hash", "exit-lock-global", "range-close", "select", "hash-register"}
+var kinds = []string{"prodcons", "mutex-let", "mutex-global", "sync-instance", "defvar-defun", "printing", "exit-lock", "generic", "mutex-hash", "exit-lock-global", "range-close", "select", "hash-register", "resync"}
 
 func nCases(tier string) int {
 	if tier == "thorough" {
-		return 2400
+		return 2408
 	}
-	return 200
+	return 210
 }
 
 func gen(r *rand.Rand, i int, tier string) Case {
@@ -334,6 +334,43 @@ func program(c Case) (src string, warm string) {
 			fmt.Fprintf(&b, " (send inst :s%d)", k)
 		}
 		b.WriteString("))")
+	case "resync":
+		// a synchronized instance (standard class or flavor by turns) whose
+		// routines ask again for synchronization before every access, as a
+		// defensive helper would: asking again must not disturb routines that
+		// are inside an access; each routine owns one slot
+		flavor := c.Salt/len(kinds)%2 == 1
+		if flavor {
+			fmt.Fprintf(&b, "(defflavor %s-rf (", u)
+			for k := 0; k < c.N; k++ {
+				fmt.Fprintf(&b, " (s%d 0)", k)
+			}
+			b.WriteString(") () :gettable-instance-variables :settable-instance-variables)\n")
+			fmt.Fprintf(&b, "(let* ((done (make-channel %d)) (inst (make-instance '%s-rf)))\n (set-synchronized inst t)\n", c.N+1, u)
+		} else {
+			fmt.Fprintf(&b, "(defclass %s-rc () (", u)
+			for k := 0; k < c.N; k++ {
+				fmt.Fprintf(&b, " (s%d :initform 0)", k)
+			}
+			b.WriteString("))\n")
+			fmt.Fprintf(&b, "(let* ((done (make-channel %d)) (inst (make-instance '%s-rc)))\n (set-synchronized inst t)\n", c.N+1, u)
+		}
+		for k := 0; k < c.N; k++ {
+			if flavor {
+				fmt.Fprintf(&b, " (run (progn (dotimes (i %d) (set-synchronized inst t) (send inst :set-s%d (1+ (send inst :s%d)))) (channel-push done (synchronizedp inst))))\n", c.M, k, k)
+			} else {
+				fmt.Fprintf(&b, " (run (progn (dotimes (i %d) (set-synchronized inst t) (setf (slot-value inst 's%d) (1+ (slot-value inst 's%d)))) (channel-push done (synchronizedp inst))))\n", c.M, k, k)
+			}
+		}
+		fmt.Fprintf(&b, " (let ((still t)) (dotimes (i %d) (if (channel-pop done) nil (setq still nil)))\n (list (if still 1 0)", c.N)
+		for k := 0; k < c.N; k++ {
+			if flavor {
+				fmt.Fprintf(&b, " (send inst :s%d)", k)
+			} else {
+				fmt.Fprintf(&b, " (slot-value inst 's%d)", k)
+			}
+		}
+		b.WriteString(")))")
 	case "mutex-hash":
 		// a hash table of counters, every access under the mutex
 		fmt.Fprintf(&b, "(let* ((m (make-mutex)) (done (make-channel %d)) (h (make-hash-table)))\n", c.N+1)
@@ -564,6 +601,21 @@ func exec(x *fw.Ctx, c Case) {
 			}
 		}
 		x.CoverN("increments", c.N*c.M)
+	case "resync":
+		v, ok := ints(res)
+		if !ok || len(v) != 1+c.N {
+			x.Fail(sig("shape"), "%s: %s", cfg, shown)
+			return
+		}
+		if v[0] != 1 {
+			x.Fail(sig("not-synchronized"), "%s: synchronizedp gave nil for an instance every routine had just asked to be synchronized", cfg)
+		}
+		for k := 0; k < c.N; k++ {
+			if v[1+k] != int64(c.M) {
+				x.Fail(sig("lost-slot-write"), "%s: slot s%d is %d after its only writer incremented it %d times", cfg, k, v[1+k], c.M)
+			}
+		}
+		x.CoverN("increments", c.N*c.M)
 	case "defvar-defun":
 		l, _ := res.(slip.List)
 		got := map[int64]int64{}
@@ -647,7 +699,7 @@ func exec(x *fw.Ctx, c Case) {
 func init() {
 	fw.Register(fw.Spec[Case]{
 		ID: "C17",
-		Rule: "a case = workload kind (13 kinds, one of them a hash table used as per-key registers whose recorded call/return history is checked for linearizability with porcupine: producers/consumers over channels, mutex-guarded let/global/hash counters with a read-yield-write body, synchronized instance, " +
+		Rule: "a case = workload kind (14 kinds, one of them a hash table used as per-key registers whose recorded call/return history is checked for linearizability with porcupine: producers/consumers over channels, mutex-guarded let/global/hash counters with a read-yield-write body, synchronized instance, synchronized instance (class or flavor) whose routines re-apply set-synchronized before every access, " +
 			"concurrent defvar/defun, concurrent printing, exits out of locked regions, generic calls during defmethod) x N<=8 routines x M<=200 ops x channel capacity x GOMAXPROCS {1,2,4,16} x " +
 			"schedule perturbation {off, random yield, random 10-200us sleep at VerifPoints and monitor calls} x cold/warm, run in a race-detector build; " +
 			"every case is non-trivial (>= 2 routines); distinct = distinct case JSON",
